@@ -252,3 +252,29 @@ func MustPassBefore(fn *ssa.Function, target ssa.Instruction, barriers []ssa.Ins
 	}
 	return true
 }
+
+// ResolveLocal looks through a load of an address-taken local variable: when v
+// is `*alloc` and exactly one value is ever stored to that alloc, that value is
+// returned (the `if err := f(); err != nil { p = &err }` shape); otherwise v.
+func ResolveLocal(v ssa.Value) ssa.Value {
+	u, ok := v.(*ssa.UnOp)
+	if !ok || u.Op != token.MUL {
+		return v
+	}
+	al, ok := u.X.(*ssa.Alloc)
+	if !ok {
+		return v
+	}
+	var stored ssa.Value
+	n := 0
+	for _, ref := range *al.Referrers() {
+		if st, isS := ref.(*ssa.Store); isS && st.Addr == ssa.Value(al) {
+			stored = st.Val
+			n++
+		}
+	}
+	if n == 1 {
+		return stored
+	}
+	return v
+}
